@@ -124,6 +124,29 @@ def run(chk):
                 nv += 1
                 chk.violation("ppc", {"poly": pl, "point": [str(p[0]), str(p[1])]}, {"returned": r}, f"crossing-number classification {o} (-1 outside, 0 on edge, 1 inside)")
     chk.cov["input_distribution"] = {"polygons": len(polys), "points_per_polygon": len(P), "outside": dist[-1], "on_edge": dist[0], "inside": dist[1]}
+    # points almost (not exactly) level with a vertex, far outside the polygon: exact answer "outside", whatever the vertex rule does with near-level points
+    sub2 = rng.sample(list(range(len(polys))), min(400 if quick else 3000, len(polys)))
+    near = []
+    for i in sub2:
+        pl = polys[i]
+        pts = []
+        for (vx, vy) in pl:
+            for d_ in (F(1, 10000), F(-1, 10000), F(3, 10000), F(-7, 10000)):
+                pts.append((F(-2), F(vy) + d_))
+                pts.append((F(11, 2), F(vy) + d_))
+        near.append({"poly": [v4(v) for v in pl], "pts": [v4(p) for p in pts], "float": True})
+    r3 = run_impl("geom.py", {"ppc": near}, timeout=900)
+    if "_error" not in r3:
+        for i, res in zip(sub2, r3["ppc"]):
+            chk.cov["evaluations"] += len(res)
+            badp = [k for k, r in enumerate(res) if r != -1]
+            if badp and nv < 6:
+                nv += 1
+                pt = near[sub2.index(i)]["pts"][badp[0]]
+                chk.violation("ppc", {"poly": polys[i], "point": [f"{pt[0]}/{pt[1]}", f"{pt[2]}/{pt[3]}"]}, {"returned": res[badp[0]]},
+                              "a point outside the bounding box of the polygon is outside (-1), also when it is almost level with a vertex")
+    else:
+        chk.broken.append({"name": "near-level points run failed", "detail": r3["_error"][-200:]})
     # vertex order / orientation independence on the implementation
     sub = rng.sample(list(range(len(polys))), min(300, len(polys)))
     rot = [{"poly": [v4(v) for v in (polys[i][1:] + polys[i][:1])], "pts": [v4(p) for p in P], "float": True} for i in sub]
